@@ -552,14 +552,12 @@ func invSig(d Desc) string {
 		switch {
 		case o.P == "" || o.A == "":
 			continue
-		case o.A == "nil" && !iface:
+		case o.A == "nil" && !iface && nilableCT(strings.TrimPrefix(o.P, "PC ")) && o.P != "PC CChan" && o.P != "PC CFunc":
 			return "c16:untyped-nil-for-concrete-param:not-shipped"
 		case (o.A == "tnil" && o.C == "CResult") || (o.A == "res" && (o.V < 0 || o.V >= d.NRes)):
 			return "c16:nil-result-arg:run-panics"
 		case o.A == "tnil" && pointerCT(o.C) && !iface:
 			return "c16:typed-nil-pointer-arg:run-panics"
-		case o.A == "tnil" && o.C == "CPsq" && iface:
-			return "c16:nil-pointer-in-interface-arg:not-shipped"
 		}
 	}
 	return "inv"
@@ -704,6 +702,9 @@ func genInv(r *vf.Rand) Desc {
 				iface = !strings.HasPrefix(o.P, "PC ")
 				pc = strings.TrimPrefix(o.P, "PC ")
 				kind = "inv/nil"
+				if iface && a.C == "CPsq" {
+					kind = "inv/unencodable" // gob cannot represent a nil pointer inside an interface
+				}
 			case flavour < 92: // cannot be encoded
 				switch {
 				case o.P == "PAny":
@@ -793,11 +794,7 @@ func fixedInv() []Desc {
 		}
 		if pointerCT(c) {
 			ds = append(ds, one("inv/nil", 0, ArgOp{P: "PC " + c, A: "tnil", C: c}))
-			k := "inv/nil"
-			if c == "CPtr" {
-				k = "inv/unencodable" // *pair is not registered
-			}
-			ds = append(ds, one(k, 0, ArgOp{P: "PAny", A: "tnil", C: c}))
+			ds = append(ds, one("inv/unencodable", 0, ArgOp{P: "PAny", A: "tnil", C: c}))
 		}
 	}
 	ds = append(ds, one("inv/plain", 0, ArgOp{P: "PC CInts", A: "val", C: "CInts", V: 0, E: true}))
@@ -812,7 +809,7 @@ func fixedInv() []Desc {
 	ds = append(ds, one("inv/iface", 0, ArgOp{P: "PShape", A: "nil"}))
 	ds = append(ds, one("inv/iface", 0, ArgOp{P: "PAny", A: "nil"}))
 	ds = append(ds, one("inv/iface", 0, ArgOp{P: "PSliceI", A: "nil"}))
-	ds = append(ds, one("inv/nil", 0, ArgOp{P: "PShape", A: "tnil", C: "CPsq"}))
+	ds = append(ds, one("inv/unencodable", 0, ArgOp{P: "PShape", A: "tnil", C: "CPsq"}))
 	for _, c := range []string{"CChan", "CFunc"} {
 		ds = append(ds, one("inv/unencodable", 0, ArgOp{P: "PC " + c, A: "val", C: c}))
 		ds = append(ds, one("inv/unencodable", 0, ArgOp{P: "PC " + c, A: "tnil", C: c}))
